@@ -162,6 +162,8 @@ def eEpisode : Nat := 0      -- episode_counter
 def eConfig : Nat := 1       -- the scheduler's scenario (constant part)
 def eNmneCfg : Nat := 2      -- the scenario's nmne_config (as a number)
 def eIo : Nat := 3           -- io settings
+def eUsesRng : Nat := 4      -- 1 iff the scenario has scripted agents / red applications that draw from the global generators
+def eScheduled : Nat := 5    -- 1 iff the scheduler hands out a different scenario per episode
 /-- game attributes -/
 def lState : Nat := 0        -- simulation state digest
 def lStep : Nat := 1         -- step counter
@@ -174,11 +176,12 @@ def buildGame : List Cmd :=
     .newGame,
     -- every NIC's PacketCapture registers its file loggers (when pcap logging is on)
     .setGlob gPcapLoggers (.env eIo),
-    .setLoc lState (.add (.add (.env eConfig) (.env eEpisode)) (.glob gImport)),
+    -- the scheduler's scenario for this episode (constant schedulers ignore the episode number)
+    .setLoc lState (.add (.add (.env eConfig) (.ite (.env eScheduled) (.env eEpisode) (.lit 0))) (.glob gImport)),
     .setLoc lStep (.lit 0),
     -- scripted agents draw their start step / start node / private generator seed
-    .setLoc lState (.add (.loc lState) (.glob gRng)),
-    .setGlob gRng (.lcg (.glob gRng)),
+    .setLoc lState (.add (.loc lState) (.ite (.env eUsesRng) (.glob gRng) (.lit 0))),
+    .setGlob gRng (.ite (.env eUsesRng) (.lcg (.glob gRng)) (.glob gRng)),
     -- the first observation reads the capture flag just written
     .emit (.add (.loc lState) (.glob gCapture)) ]
 
@@ -186,9 +189,18 @@ def buildGame : List Cmd :=
 def constructProg : List Cmd :=
   [ .setGlob gRng .arg, .setGlob gSimOutput (.env eIo), .setEnv eEpisode (.lit 0) ] ++ buildGame
 
+/-- `__init__` of a scenario without `game.seed`: `set_random_seed(None, False)` returns without seeding -/
+def constructProgNoSeed : List Cmd :=
+  [ .setGlob gSimOutput (.env eIo), .setEnv eEpisode (.lit 0) ] ++ buildGame
+
 /-- `PrimaiteGymEnv.reset(seed = arg)` -/
 def resetProg : List Cmd :=
   [ .setGlob gRng .arg, .log (.glob gSimOutput), .setEnv eEpisode (.add (.env eEpisode) (.lit 1)),
+    .setGlob gPcapLoggers (.lit 0) ] ++ buildGame
+
+/-- `reset()` without a seed -/
+def resetProgNoSeed : List Cmd :=
+  [ .log (.glob gSimOutput), .setEnv eEpisode (.add (.env eEpisode) (.lit 1)),
     .setGlob gPcapLoggers (.lit 0) ] ++ buildGame
 
 /-- `PrimaiteGymEnv.step(arg)` as the code is: NICs consult `nmne_config`, the NIC observation consults `capture_nmne`,
@@ -196,8 +208,8 @@ scripted agents and red applications draw from the global RNG — none of them r
 def stepProg : List Cmd :=
   [ .setLoc lStep (.add (.loc lStep) (.lit 1)),
     .setLoc lState (.add (.add (.loc lState) .arg) (.glob gNmne)),
-    .setLoc lState (.add (.loc lState) (.glob gRng)),
-    .setGlob gRng (.lcg (.glob gRng)),
+    .setLoc lState (.add (.loc lState) (.ite (.env eUsesRng) (.glob gRng) (.lit 0))),
+    .setGlob gRng (.ite (.env eUsesRng) (.lcg (.glob gRng)) (.glob gRng)),
     .log (.glob gSimOutput),
     .emit (.add (.loc lState) (.glob gCapture)),
     .emit (.loc lStep) ]
@@ -220,8 +232,9 @@ def refClass (g : Nat) : GClass :=
   else if g = gPcapLoggers then .sinkOnly
   else .importOnly
 
-def initInst (cfg nmne io : Val) : Inst :=
-  { env := fun x => if x = eConfig then cfg else if x = eNmneCfg then nmne else if x = eIo then io else 0,
+def initInst (cfg nmne io : Val) (usesRng : Val := 1) (scheduled : Val := 0) : Inst :=
+  { env := fun x => if x = eConfig then cfg else if x = eNmneCfg then nmne else if x = eIo then io
+                    else if x = eUsesRng then usesRng else if x = eScheduled then scheduled else 0,
     loc := fun _ => 0 }
 
 end Primaite.Isolation
